@@ -3,6 +3,7 @@ pub mod c01;
 pub mod c02;
 pub mod c03;
 pub mod c04;
+pub mod c06;
 pub mod c07;
 pub mod c08;
 pub mod c09;
@@ -29,6 +30,7 @@ pub const PROPS: &[PropEntry] = &[
     PropEntry { id: "C02", run: c02::run_check, case: c02::case },
     PropEntry { id: "C03", run: c03::run_check, case: c03::case },
     PropEntry { id: "C04", run: c04::run_check, case: c04::case },
+    PropEntry { id: "C06", run: c06::run_check, case: c06::case },
     PropEntry { id: "C07", run: c07::run_check, case: c07::case },
     PropEntry { id: "C08", run: c08::run_check, case: c08::case },
     PropEntry { id: "C09", run: c09::run_check, case: c09::case },
